@@ -1,12 +1,15 @@
 //! Request generators, one module per property: a deterministic coverage core (independent of the
 //! seed) followed by the seeded random stream.
 
+pub mod arch;
+pub mod c02;
 pub mod c03;
 pub mod c06;
 pub mod c07;
 pub mod c14;
 pub mod c15;
 pub mod c18;
+pub mod netprops;
 
 use crate::util::*;
 use neurons::tensor::{Data, Shape, Tensor};
@@ -74,6 +77,18 @@ pub fn nontrivial_tensor(t: &Tensor) -> bool {
 
 pub fn generate(g: &mut Gen) {
     match g.ctx.prop.clone().as_str() {
+        "C01" => netprops::c01(g),
+        "C02" => c02::generate(g),
+        "C04" => netprops::c04(g),
+        "C05" => netprops::c05(g),
+        "C08" => netprops::c08(g),
+        "C09" => netprops::c09(g),
+        "C10" => netprops::c10(g),
+        "C11" => netprops::c11(g),
+        "C12" => netprops::c12(g),
+        "C13" => netprops::c13(g),
+        "C16" => netprops::c16(g),
+        "C17" => netprops::c17(g),
         "C03" => c03::generate(g),
         "C06" => c06::generate(g),
         "C07" => c07::generate(g),
